@@ -6,6 +6,7 @@ CONSTANTS
   MaxWork = 600
   NumK = 1
   Cross = FALSE
+  Uniform = {"i32max", "zero"}
   Only = {}
 INVARIANTS TypeOK StackBounded OutcomeOk WorkBounded Emit
 PROPERTY Terminates
